@@ -206,9 +206,25 @@ def make_adapter(casbin, initial, fail_after=None, is_async=False):
     return Rec()
 
 
+class _WLog(list):
+    """the watcher's call log; when `observe` is set, every notification also records what the adapter's store and the
+    enforcer's memory hold at that very moment (the property: notified AFTER the in-memory and adapter changes)"""
+
+    observe = None
+
+    def __init__(self):
+        super().__init__()
+        self.snaps = []
+
+    def append(self, x):
+        super().append(x)
+        if self.observe is not None:
+            self.snaps.append(self.observe())
+
+
 def make_watcher(kind, is_async=False):
     """kind: 'plain' | 'ex' | 'upd'"""
-    log = []
+    log = _WLog()
 
     class W:
         def set_update_callback(self, f):
@@ -345,6 +361,13 @@ def build_enforcer(cfg, fail_after=None):
     if cfg.watcher:
         w = make_watcher(cfg.watcher, cfg.is_async)
         e.set_watcher(w)
+
+        def observe():
+            pol = {"p": [list(r) for r in e.get_policy()], "g": [list(r) for r in e.get_named_grouping_policy("g")]}
+            pol["g2"] = [list(r) for r in e.get_named_grouping_policy("g2")] if cfg.shape == "res" else []
+            return {"pol": pol, "store": {k: [list(r) for r in ad.store.get(k, [])] for k in ("p", "g", "g2")} if ad else None}
+
+        w.log.observe = observe
     if cfg.matchfn == "regex":
         from casbin.util import regex_match_func
 
@@ -631,6 +654,7 @@ def run_history(cfg, hist, queries, fresh_oracle=True, extra=None):
     for op in hist:
         a0 = len(ad.log) if ad else 0
         w0 = len(w.log) if w else 0
+        ws0 = len(w.log.snaps) if w else 0
         try:
             ret = res_str(impl_call(e, op, cfg.is_async))
         except Exception as ex:  # noqa
@@ -638,6 +662,7 @@ def run_history(cfg, hist, queries, fresh_oracle=True, extra=None):
         rec = {"ret": ret}
         rec["acalls"] = list(ad.log[a0:]) if ad else []
         rec["wcalls"] = list(w.log[w0:]) if w else []
+        rec["wsnaps"] = list(w.log.snaps[ws0:]) if w else []
         pol = {"p": [list(r) for r in e.get_policy()], "g": [list(r) for r in e.get_named_grouping_policy("g")]}
         pol["g2"] = [list(r) for r in e.get_named_grouping_policy("g2")] if cfg.shape == "res" else []
         rec["pol"] = pol
